@@ -26,7 +26,7 @@ LEVEL = "exploration"
 RULE = ("histories over a pool of 66 scripts (valid with differing requires, invalid, "
         "truncated mid-string-list / mid-test-list / mid-block / mid-command, ending in "
         "comments, with name/description hash comments, scripts that name a comparator / "
-        "capability / identifier which another script uses in a different role) and 14 factory steps + 1 commands-API step (definitions "
+        "capability / identifier which another script uses in a different role) and 17 factory steps (three with extension tags in upper / mixed case) + 1 commands-API step (definitions "
         "using :regex/:count/:value/:copy/:create/:flags, body, envelope, currentdate, "
         "imap4flags actions; build + render): quick = all ordered pairs of steps with the "
         "last step being any pool step in reuse and fresh-parser mode, all (parse X and keep "
@@ -149,6 +149,10 @@ FACTORY = [
     ([("size", ":over", "1k")], [("keep", ":flags", ["a"])], "anyof"),
     ([("true",)], [("vacation", ":seconds", 5, "r")], "anyof"),
     ([("notexists", "x")], [("reject", "no")], "allof"),
+    # extension tags in other letter cases (tags are case-insensitive)
+    ([("Subject", ":REGEX", "^a")], [("keep",)], "anyof"),
+    ([("Subject", ":Count", "1")], [("fileinto", ":COPY", "F")], "anyof"),
+    ([("true",)], [("vacation", ":SECONDS", 5, "r")], "anyof"),
     # not a filter: every extension registered through the commands API, outside any parse
     ("api", "complete-a-require-by-hand", None),
     # which script the nested Parser of `includex` gets from now on (harness-side knob)
